@@ -191,7 +191,7 @@ def wants (focus : String) (comp : String) : Bool :=
   | "C18" => comp == "eps" || comp == "yw" || comp == "params" || comp == "res" || comp == "coef"
   | "C11" => comp == "res" || comp == "coef" || comp == "jac" || comp == "params" || comp == "ptwins"
   | "C08" => false
-  | "C09" => comp == "res" || comp == "coef" || comp == "params" || comp == "jac"
+  | "C09" => comp == "res" || comp == "coef" || comp == "params" || comp == "jac" || comp == "twins"
   | "C04state" => comp == "res" || comp == "coef" || comp == "params" || comp == "twins"
   | "C06" => comp == "res" || comp == "coef" || comp == "jac" || comp == "yw" || comp == "wtwins"
   | "C07" => comp == "res" || comp == "coef" || comp == "jac" || comp == "stwins"
